@@ -199,6 +199,29 @@ def apply_R2(chunk, loop_idx, log, where):
     log.add('R2', where, hdr, new)
 
 
+def apply_R16(chunk, loop_idx, log, where):
+    """R16: `for PAT in E.iter().flatten() { BODY }` (E: a collection of Option<T>) ->
+    `for PAT_opt in E.iter() { if let Some(PAT) = PAT_opt { BODY } }`: Iterator::flatten over Options
+    yields exactly the Some payloads, in order."""
+    loops = find_loops(chunk)
+    if loop_idx >= len(loops):
+        raise ExtractError('R16: loop #%d not found in %s' % (loop_idx, where))
+    p, brace, kw = loops[loop_idx]
+    t = chunk.text()
+    hdr = t[p:brace + 1]
+    m = re.fullmatch(r'for\s+(\w+)\s+in\s+(.+?)\.iter\(\)\.flatten\(\)\s*\{', hdr, re.S)
+    if not m:
+        raise ExtractError('R16: loop #%d header %r in %s is not an iter().flatten() loop' % (loop_idx, hdr, where))
+    src = rsscan.Source('<chunk>', t)
+    close = src.match_brace(brace)
+    var, e = m.group(1), m.group(2).strip()
+    # closing brace first (offsets after it stay valid), then the header
+    chunk.replace_span(close, close + 1, '} }', 'R16')
+    new = 'for %s_opt in %s.iter() { if let Some(%s) = %s_opt {' % (var, e, var, var)
+    chunk.replace_span(p, brace + 1, new, 'R16')
+    log.add('R16', where, hdr, new + ' ... } }')
+
+
 def apply_regex_rule(chunk, rule, pattern, repl, log, where, count=None, flags=re.S):
     """Generic logged regex rewrite on code positions (single pass: matches are found in the text as it
     is and replaced from the last to the first, so a replacement is never rescanned).
@@ -362,6 +385,28 @@ def apply_R3(chunk, names, log, where):
 CLOSURE_RE = re.compile(r'Box::new\(move \|(\w+): &Scope\| \{')
 
 
+def lift_named_closure(chunk, header_re, signature, log, where):
+    """R4 (local closure): the block of a closure bound with `let NAME = |..| { .. };` becomes the body of a function
+    with the given signature (captured variables such as `self` become parameters). Everything else is dropped."""
+    t = chunk.text()
+    cls = rsscan.classify(t)
+    occ = [m for m in re.finditer(header_re, t) if cls[m.end() - 1] == rsscan.CODE]
+    if len(occ) != 1:
+        raise ExtractError('R4: closure header %r matches %d times in %s' % (header_re, len(occ), where))
+    m = occ[0]
+    open_pos = m.end() - 1
+    if t[open_pos] != '{':
+        raise ExtractError('R4: closure header regex must end at the opening brace in %s' % where)
+    src = rsscan.Source('<chunk>', t)
+    close_pos = src.match_brace(open_pos)
+    li0 = chunk.line_index(open_pos)
+    li1 = chunk.line_index(close_pos)
+    body = chunk.lines[li0 + 1:li1]
+    new_lines = [Line(signature + ' {', ('rw', 'R4', chunk.lines[li0].origin))] + body + [Line('}', ('rw', 'R4', chunk.lines[li1].origin))]
+    log.add('R4', where, 'local closure %s of %s' % (m.group(0), where), signature)
+    chunk.lines = new_lines
+
+
 def lift_closure(chunk, index, name, log, where, extra_params=None, ret_type='Value'):
     """R4: the block of the index-th `Box::new(move |scope: &Scope| { .. })` closure of a build_* function
     becomes the body of `pub fn name(..) -> Value`. Leading `let v = ev(scope);` statements (operand
@@ -500,6 +545,8 @@ def build_fn_chunk(chunk, fspec, fnkey, built, cover, relwhere):
             strip_macro_stmt(chunk, r[1], log, fnkey)
         elif kind == 'R12':
             apply_R12(chunk, log, fnkey)
+        elif kind == 'R16':
+            apply_R16(chunk, r[1], log, fnkey)
         elif kind == 'R3':
             apply_R3(chunk, r[1] if len(r) > 1 else ['value_null'], log, fnkey)
         elif kind == 'RX':
@@ -779,10 +826,17 @@ def build_unit(udef, cover=False):
         elif kind == 'closure':
             drop_attr_lines(chunk)
             fnkey = key
-            lift_closure(chunk, part.get('index', 0), part['name'], b.rewrites, fnkey, part.get('extra_params'), part.get('ret_type', 'Value'))
+            if part.get('closure_header'):
+                lift_named_closure(chunk, part['closure_header'], part['signature'], b.rewrites, fnkey)
+            else:
+                lift_closure(chunk, part.get('index', 0), part['name'], b.rewrites, fnkey, part.get('extra_params'), part.get('ret_type', 'Value'))
             build_fn_chunk(chunk, part, fnkey, b, cover and part.get('cover', True), relpath)
             first_idx = len(L)
+            if part.get('impl_header'):
+                L.append(Line(part['impl_header'], ('gen', 'impl-wrap')))
             L.extend(chunk.lines)
+            if part.get('impl_header'):
+                L.append(Line('}', ('gen', 'impl-wrap')))
             b.fn_ranges.append((first_idx, len(L) - 1, fnkey))
             b.functions.append({'key': fnkey, 'kind': 'fn', 'src': relpath, 'lines': [first_line, last_line], 'sha256': sha256(raw),
                                 'auto_props': part.get('auto_props', []), 'props': part.get('props', []), 'lifted_closure': True})
